@@ -385,12 +385,10 @@ fn line_starts(content: &str) -> Vec<usize> {
     once(0)
         .chain(
             content
-                .lines()
-                .map(|line| line.len() + 1)
-                .scan(0, |start, len| {
-                    *start += len;
-                    Some(*start)
-                }),
+                .bytes()
+                .enumerate()
+                .filter(|(_, byte)| *byte == b'\n')
+                .map(|(at, _)| at + 1),
         )
         .collect()
 }
